@@ -320,7 +320,12 @@ def run_config(out, binp, rng, hi):
             proc.send_signal(signal.SIGKILL); proc.wait()
             out.write(f"# i={k + 1} op=reopen kill=9 moved=1\nreopen => ok\n")
             moved = os.path.join(work, 'moved-' + cfg['dirname'])
-            os.rename(datadir, moved)
+            try:
+                os.rename(datadir, moved)
+            except OSError as e:
+                # the directory given does not exist: the server kept its data somewhere else (reported by dircheck above)
+                out.write(f"# i={k + 2} op=restart moved=1\nrestart => failed:the-directory-given-does-not-exist\n")
+                return
             for junk in os.listdir(work):
                 if junk != os.path.basename(moved):
                     jp = os.path.join(work, junk)
